@@ -28,18 +28,19 @@ import (
 // ---- spec ------------------------------------------------------------------------
 
 type HarnessSpec struct {
-	Func     string                      `json:"func"`
-	Pkg      string                      `json:"pkg"`   // repo-relative package dir; default: spec.Packages[0]
-	Kind     string                      `json:"kind"`  // "check" (default) | "twin" (must be violated)
-	Tiers    map[string]map[string]int64 `json:"tiers"` // tier -> params; a tier that is absent skips the harness
-	Desc     string                      `json:"desc"`
-	Gates    map[string]string           `json:"gates"`
-	MaxPaths int                         `json:"max_paths"`
-	NoMerge  bool                        `json:"no_merge"`
-	Merge    []string                    `json:"merge"`
-	Redirect map[string]string           `json:"redirect"`
-	Validate int                         `json:"validate"` // number of witness paths replayed natively (default 1)
-	Bounds   string                      `json:"bounds"`
+	Func        string                      `json:"func"`
+	Pkg         string                      `json:"pkg"`   // repo-relative package dir; default: spec.Packages[0]
+	Kind        string                      `json:"kind"`  // "check" (default) | "twin" (must be violated)
+	Tiers       map[string]map[string]int64 `json:"tiers"` // tier -> params; a tier that is absent skips the harness
+	Desc        string                      `json:"desc"`
+	Gates       map[string]string           `json:"gates"`
+	MaxPaths    int                         `json:"max_paths"`
+	TimeBudgetS int                         `json:"time_budget_s"`
+	NoMerge     bool                        `json:"no_merge"`
+	Merge       []string                    `json:"merge"`
+	Redirect    map[string]string           `json:"redirect"`
+	Validate    int                         `json:"validate"` // number of witness paths replayed natively (default 1)
+	Bounds      string                      `json:"bounds"`
 }
 
 type Spec struct {
@@ -86,6 +87,7 @@ type harnessResult struct {
 	Inputs                          map[string]*interp.InputDecl
 	Wall                            time.Duration
 	Merges, MergePaths, MergeAborts int
+	MergeAbortWhy                   map[string]int
 	SolverUnknown                   int
 	Gates                           map[string]bool
 	MaxDepth                        int
@@ -352,6 +354,12 @@ func (r *runner) explore(h HarnessSpec, params map[string]int64) *harnessResult 
 	if t, ok := r.spec.SolverTimeoutS[r.tier]; ok {
 		timeout = t
 	}
+	budget := time.Duration(h.TimeBudgetS) * time.Second
+	if b := os.Getenv("GOSYM_BUDGET_S"); b != "" {
+		var n int
+		fmt.Sscan(b, &n)
+		budget = time.Duration(n) * time.Second
+	}
 	maxPaths := h.MaxPaths
 	if maxPaths == 0 {
 		maxPaths = 200000
@@ -441,6 +449,12 @@ func (r *runner) explore(h HarnessSpec, params map[string]int64) *harnessResult 
 				res.Merges += pr.Merges
 				res.MergePaths += pr.MergePaths
 				res.MergeAborts += pr.MergeAborts
+				for k, n := range pr.MergeAbortWhy {
+					if res.MergeAbortWhy == nil {
+						res.MergeAbortWhy = map[string]int{}
+					}
+					res.MergeAbortWhy[k] += n
+				}
 				res.SolverUnknown += pr.SolverUnknown
 				if len(pr.Decisions) > res.MaxDepth {
 					res.MaxDepth = len(pr.Decisions)
@@ -474,6 +488,11 @@ func (r *runner) explore(h HarnessSpec, params map[string]int64) *harnessResult 
 				if res.Paths >= maxPaths && len(queue) > 0 {
 					res.Capped = true
 					stop = true
+				}
+				if budget > 0 && time.Since(t0) > budget && len(queue) > 0 {
+					res.Capped = true
+					stop = true
+					res.Details = append(res.Details, fmt.Sprintf("time budget of %v exhausted with %d paths done and %d queued", budget, res.Paths, len(queue)))
 				}
 				if r.verbose && res.Paths%50 == 0 {
 					fmt.Printf("  [%s] paths=%d queue=%d viol=%d\n", h.Func, res.Paths, len(queue), len(res.Violations))
@@ -902,6 +921,13 @@ func (r *runner) judge() int {
 	// summary
 	for _, res := range r.results {
 		fmt.Printf("[%s] %-40s paths=%d branches=%d asserts=%d/%d status=%v viol=%d merges=%d wall=%.1fs\n", prop, res.Spec.Func, res.Paths, res.Branches, sum(res.AssertsProved), sum(res.AssertsSeen), res.Status, len(res.Violations), res.Merges, res.Wall.Seconds())
+	}
+	if r.verbose {
+		for _, res := range r.results {
+			for k, n := range res.MergeAbortWhy {
+				fmt.Printf("  merge fallback x%d: %s\n", n, k)
+			}
+		}
 	}
 	for k, s := range r.solver {
 		fmt.Printf("[%s] solver %-8s calls=%d sat=%d unsat=%d unknown=%d time=%.1fs max=%.2fs restarts=%d\n", prop, k, s.Calls, s.Sat, s.Unsat, s.Unknown, s.Time.Seconds(), s.MaxTime.Seconds(), s.Restarts)
